@@ -22,6 +22,23 @@ cs_add(ContinuableSink *cs, const void *data, const size_t n)
     return tosave < n ? -ENOMEM : 0;
 }
 
+/* While a block is in use, the head of the stream is kept in the fallback
+ * buffer as well: When the block turns out to be too small, the octets it could
+ * not take are gone, and the ones it did take may not even make a header. */
+static void
+cs_keep_head(ContinuableSink *cs, const void *data, const size_t n)
+{
+    if (cs->buffer.data == NULL || cs->fallback == NULL) {
+        /* Without a block, cs_add() stores into the fallback buffer itself. */
+        return;
+    }
+    const size_t rest = byte_buffer_avail(cs->fallback);
+    const size_t tosave = n < rest ? n : rest;
+    if (tosave > 0u) {
+        byte_buffer_add(cs->fallback, data, tosave);
+    }
+}
+
 static ssize_t
 run_continuable_sink(void *driver, const void *data, size_t n)
 {
@@ -30,6 +47,7 @@ run_continuable_sink(void *driver, const void *data, size_t n)
     if (cs->error.id != 0) {
         /* If there's still room in a buffer, save as much as possible, but
          * we're already in a bad state. */
+        cs_keep_head(cs, data, n);
         (void)cs_add(cs, data, n);
         cs->error.datacount += n;
         return n;
@@ -73,6 +91,7 @@ run_continuable_sink(void *driver, const void *data, size_t n)
         : (cs->fallback != NULL
            ? cs->fallback->used
            : 0u);
+    cs_keep_head(cs, data, n);
     const int rc = cs_add(cs, data, n);
 
     if (rc < 0) {
